@@ -439,6 +439,27 @@ def racing_backups(ctx, n):
         ctx.sample({"race_schedule": cases[0]["sched"]})
 
 
+def exclusive_creation(ctx, rounds):
+    """The atomicity the interleaving model (run2: whole transport operations) takes for granted: of several writers creating
+    the same fresh path with CreateNew at the same moment, exactly one wins and the file holds the winner's bytes."""
+    cases = [{"id": f"x{w}", "steps": [{"op": "write_race", "n": rounds, "writers": w}]} for w in (2, 4)]
+    res = ctx.cvh_run(cases)
+    for c in cases:
+        r = res.get(c["id"])
+        ctx.count()
+        if r is None or r[0].get("result") != "ok":
+            ctx.oracle_fail("contract/harness-died", "the write race could not be run", {"steps": c["steps"]})
+            continue
+        v = r[0]["value"]
+        if v["more_than_one_ok"] or v["content_not_a_winners"] or v["no_writer_ok"]:
+            ctx.oracle_fail("contract/createnew-not-exclusive", f"{v['writers']} writers creating the same new file with CreateNew at once, {v['rounds']} rounds: "
+                            f"in {v['more_than_one_ok']} more than one write returned Ok, in {v['content_not_a_winners']} the file does not hold a winner's "
+                            f"content, in {v['no_writer_ok']} nobody won", {"steps": c["steps"]})
+            continue
+        ctx.nontrivial(f"write_race:{v['writers']}")
+        ctx.dist("exclusive_creation_rounds", v["rounds"])
+
+
 def run(ctx):
     quick = ctx.tier == "quick"
     ctx.cov["rule"] = ("(a) random direct Transport call sequences (CreateNew/Overwrite writes, zero-length leftovers, mkdir, list, metadata, "
@@ -446,11 +467,13 @@ def run(ctx):
                        "backups killed at a random storage operation incl. the empty-file state, deletes, gc, validate): raw archive snapshot "
                        "before/after every operation (nothing pre-existing altered or removed by backup; fresh band id; no path written twice; "
                        "delete removes only requested bands, unreferenced blocks, its lock) + exact L4 trace correspondence; (c) two racing "
-                       "backups under explicit schedules. non-trivial = distinct call sequence / history / schedule")
+                       "backups under explicit schedules; (d) exclusive creation under contention: several writers creating the same new path at once, "
+                       "thousands of rounds: exactly one wins. non-trivial = distinct call sequence / history / schedule")
     transport_contract(ctx, 60 if quick else 2000)
     history_write_once(ctx, 14 if quick else 300, 7 if quick else 16)
     faults_in_band_creation(ctx, 3 if quick else 40)
     racing_backups(ctx, 30 if quick else 600)
+    exclusive_creation(ctx, 4000 if quick else 60000)
     ctx.assumptions += ["the local transport is the one exercised; S3/SFTP are outside (they already refuse an existing path)",
                         "a zero-length leftover of a killed write may be completed (documented exception)"]
 
